@@ -18,7 +18,8 @@ RULE = ('result sets from real queries (default and strict) on scratch databases
 TRUSTED = ['harness/props/c11.py + Driver/C11.lean', 'Python json parser; str() of floats in CSV cells']
 ASSUMPTIONS = []
 
-AWK = ['plain', 'com,ma', 'quo"te', 'new\nline', 'crlf\r\nname', 'ünï çödé 大腸菌', ' sp ace ', '"', ',', "it's", 'tab\there']
+AWK = ['plain', 'com,ma', 'quo"te', 'new\nline', 'crlf\r\nname', 'ünï çödé 大腸菌', ' sp ace ', '"', ',', "it's", 'tab\there',
+       '-80C_freezer', '@SRR123', '=SUM(A1)', '+plus', '\tleading tab', "'apostrophe first", '#hash', '0123', ' ', '-', '1e5', 'None', 'true', 'nan']
 
 
 def build(rng, sc, awkward=True, bare_cr=False):
@@ -42,6 +43,25 @@ def build(rng, sc, awkward=True, bare_cr=False):
 	return d, kspec, bases, taxa
 
 
+def add_second_genomeset(dbdir, rng):
+	"""a second genome set with the SAME key (other version) annotating the same genomes under other taxa"""
+	from sqlalchemy import create_engine
+	from sqlalchemy.orm import sessionmaker
+	from gambit.db.models import ReferenceGenomeSet, Taxon, Genome, AnnotatedGenome
+	engine = create_engine(f'sqlite:///{dbdir}/ref.gdb')
+	session = sessionmaker(engine)()
+	g1 = session.query(ReferenceGenomeSet).one()
+	g2 = ReferenceGenomeSet(key=g1.key, version='2.0', name='second version', description='same key, other annotations')
+	session.add(g2)
+	taxa = [Taxon(name=f'v2 taxon {i}', key=f'v2-taxon-{i}', distance_threshold=rng.choice([0.5, 0.9, 1.0]), report=True, genome_set=g2) for i in range(3)]
+	taxa[1].parent = taxa[0]
+	for t in taxa:
+		session.add(t)
+	for i, g in enumerate(session.query(Genome).order_by(Genome.id)):
+		session.add(AnnotatedGenome(genome=g, genome_set=g2, taxon=taxa[i % 3], organism=f'v2 organism {i}'))
+	session.commit(); session.close(); engine.dispose()
+
+
 def taxon_proj(t):
 	return None if t is None else {'key': t.key, 'name': t.name, 'rank': t.rank, 'ncbi_id': t.ncbi_id, 'distance_threshold': t.distance_threshold}
 
@@ -57,6 +77,8 @@ def check(ctx, case):
 	sc = dbutil.Scratch('gv_c11_')
 	try:
 		d, kspec, bases, taxa = build(rng, sc, awkward=case.get('awkward', True), bare_cr=case.get('bare_cr', False))
+		if case.get('two_gsets'):
+			return _check_two_gsets(ctx, case, rng, d, kspec, bases)
 		db = ReferenceDatabase.load_from_dir(d)
 		try:
 			nq = rng.randint(1, 5)
@@ -142,6 +164,44 @@ def check(ctx, case):
 		sc.cleanup()
 
 
+def _check_two_gsets(ctx, case, rng, d, kspec, bases):
+	"""one ResultsArchiveReader, archives from two genome sets that share their key: each must read back equal to its original"""
+	from sqlalchemy import create_engine
+	from sqlalchemy.orm import sessionmaker
+	from gambit.db import ReferenceDatabase, ReadOnlySession
+	from gambit.db.models import ReferenceGenomeSet
+	from gambit.sigs import load_signatures
+	from gambit.query import query, QueryParams, QueryInput
+	from gambit.results import ResultsArchiveWriter, ResultsArchiveReader
+	from gambit.sigs.calc import calc_signature
+	import io
+	add_second_genomeset(d, rng)
+	engine = create_engine(f'sqlite:///{d}/ref.gdb')
+	session = sessionmaker(engine, class_=ReadOnlySession)()
+	sigs = load_signatures(d / 'ref.gs')
+	lines, pf = [], []
+	try:
+		gsets = session.query(ReferenceGenomeSet).order_by(ReferenceGenomeSet.version).all()
+		reader = ResultsArchiveReader(session)
+		order = gsets if not case.get('reverse') else gsets[::-1]
+		qs = [calc_signature(kspec, dbutil.mutate(rng, rng.choice(bases), 0.02)) for _ in range(rng.randint(1, 3))]
+		for gs in order + order[:1]:
+			db = ReferenceDatabase(gs, sigs)
+			res = query(db, qs, QueryParams(report_closest=3), inputs=[QueryInput(f'q{i}') for i in range(len(qs))])
+			buf = io.StringIO()
+			ResultsArchiveWriter().export(buf, res)
+			back = reader.read(io.StringIO(buf.getvalue()))
+			if not (back == res):
+				pf.append(f'archive of genome set version {gs.version} read back unequal through a reused reader')
+			proj = lambda r: hx(json.dumps([[r.genomeset.version] + [[m.genome.genome_set_id, m.genome.key, None if m.matched_taxon is None else m.matched_taxon.key] for m in it.closest_genomes]
+			                                 + [None if it.report_taxon is None else it.report_taxon.key] for it in r.items]).encode())
+			lines.append(f'c11.same archive-two-genomesets {proj(res)} {proj(back)}')
+		case['_nt'] = True
+		return lines, pf
+	finally:
+		sigs.close(); session.close(); engine.dispose()
+
+
 def finding_key(failure):
 	# C11-F1: a field with a CR not followed by LF and no other character that forces quoting
 	if not failure['case'].get('bare_cr'):
@@ -161,6 +221,8 @@ def run(ctx):
 		ctx.submit(case, lines, nontrivial=nt, tags=[tag, f'strict={case.get("strict")}'], pyfails=pf)
 
 	sub({'seed': 1, 'bare_cr': True, 'awkward': False}, 'witness-C11-F1')
+	for j in range(ctx.q(6, 60)):
+		sub({'seed': rng.randrange(10 ** 9), 'two_gsets': True, 'reverse': j % 2 == 1, 'awkward': False}, 'two-genomesets-one-reader')
 	for j in range(ctx.q(140, 1200)):
 		if not ctx.time_left(0.9):
 			break
